@@ -23,6 +23,14 @@
 namespace pegtl = tao::pegtl;
 using verif::V;
 
+// The rule list is compiled in six slices (-DC10_PART=0..5, one binary each, built in parallel): the ~1400
+// instantiations of parse<> take half a minute in one translation unit. Without the define: everything.
+//   0 ascii + abnf + utf8, 1 utf16 + utf32, 2 uint8 (masks 0..127), 3 uint8 (masks 128..255), 4 uint16, 5 uint32 + uint64
+#ifndef C10_PART
+#define C10_PART -1
+#endif
+#define HAS( k ) ( C10_PART == -1 || C10_PART == ( k ) )
+
 namespace
 {
    using oracle::enc;
@@ -33,12 +41,15 @@ namespace
    bool g_overread = false;
    long g_empty_inputs = 0;
 
+   using input_t = pegtl::memory_input<>;
+   using parse_fn = bool ( * )( input_t& );
+
    struct entry
    {
       std::string family, kind, name;
       const char* label = "";
       enc e = enc::bytes;
-      int ( *run )( const char*, const char* ) = nullptr;
+      parse_fn run = nullptr;
       seq_t seq;        // one value set per unit
       bool multi = false;  // judged with the sequence model (string-like rules)
       bool core = false;   // also used in the very large sweeps
@@ -47,13 +58,21 @@ namespace
 
    std::deque< entry > g_rules;
 
-   // >= 0: matched, that many bytes consumed; -1: no match, nothing consumed; -1-k: no match, k bytes consumed; -1000: exception
+   // the only code instantiated per rule: the real top-level parse of the real rule. rewind_mode::required (in this
+   // tree parse<> defaults to optional, where a failing seq<> may leave the cursor anywhere) so that "no match" has a
+   // defined cursor position -- unchanged -- and the monitor can insist on it; success and its length do not depend on the mode.
    template< typename Rule >
-   int run_rule( const char* b, const char* e )
+   bool parse_rule( input_t& in )
+   {
+      return pegtl::parse< Rule, pegtl::nothing, pegtl::normal, pegtl::apply_mode::action, pegtl::rewind_mode::required >( in );
+   }
+
+   // >= 0: matched, that many bytes consumed; -1: no match, nothing consumed; -1-k: no match, k bytes consumed; -1000: exception
+   int run_on( const parse_fn f, const char* b, const char* e )
    {
       try {
-         pegtl::memory_input<> in( b, e, "c10" );
-         const bool ok = pegtl::parse< Rule >( in );
+         input_t in( b, e, "c10" );
+         const bool ok = f( in );
          const long used = long( in.current() - b );
          return ok ? int( used ) : int( -1 - used );
       }
@@ -71,8 +90,7 @@ namespace
       return s;
    }
 
-   template< typename Rule >
-   entry& add( const std::string& family, const std::string& kind, const std::string& text, enc e, seq_t seq )
+   entry& add( const std::string& family, const std::string& kind, const std::string& text, enc e, parse_fn run, seq_t seq )
    {
       g_rules.emplace_back();
       entry& r = g_rules.back();
@@ -83,32 +101,10 @@ namespace
       r.name = n;
       r.label = r.name.c_str();
       r.e = e;
-      r.run = &run_rule< Rule >;
+      r.run = run;
       r.multi = ( seq.size() != 1 ) || kind == "string" || kind == "istring" || kind == "mask_string" || kind == "two" || kind == "three" || kind == "ellipsis" || kind == "CRLF";
       r.seq = std::move( seq );
       return r;
-   }
-
-#define ADD( fam, kind, e, seq, ... ) add< __VA_ARGS__ >( fam, kind, #__VA_ARGS__, e, seq )
-
-   seq_t S0() { return {}; }
-   seq_t S1( vset a ) { return { std::move( a ) }; }
-   seq_t S2( vset a, vset b ) { return { std::move( a ), std::move( b ) }; }
-   seq_t S3( vset a, vset b, vset c ) { return { std::move( a ), std::move( b ), std::move( c ) }; }
-
-   constexpr char ch( unsigned v ) { return static_cast< char >( static_cast< unsigned char >( v ) ); }
-
-   std::string targs( std::initializer_list< u64 > l )
-   {
-      std::string s = "<";
-      bool first = true;
-      for( const u64 v : l ) {
-         char b[ 24 ];
-         std::snprintf( b, sizeof b, "%s0x%llx", first ? "" : ",", (unsigned long long)v );
-         s += b;
-         first = false;
-      }
-      return s + ">";
    }
 
    struct group
@@ -153,14 +149,14 @@ namespace
    inline void judge( entry& r, const char* b, const std::size_t n, const bool eok, const unsigned elen )
    {
       V.cur_label = r.label;
-      const int got = r.run( b, b + n );
+      const int got = run_on( r.run, b, b + n );
       const int exp = eok ? int( elen ) : -1;
       if( eok ) ++r.acc;
       else ++r.rej;
       if( got != exp || g_overread ) mismatch( r, b, n, exp, got );
    }
 
-   inline void judge_seq( entry& r, const char* b, const std::size_t n )
+   [[maybe_unused]] inline void judge_seq( entry& r, const char* b, const std::size_t n )
    {
       const auto* p = reinterpret_cast< const unsigned char* >( b );
       std::size_t off = 0;
@@ -182,7 +178,7 @@ namespace
       for( entry* r : rs ) judge( *r, b, n, u.ok && r->seq[ 0 ].has( u.value ), u.len );
    }
 
-   inline void judge_group( group& g, const char* b, const std::size_t n )
+   [[maybe_unused]] inline void judge_group( group& g, const char* b, const std::size_t n )
    {
       if( n == 0 ) g_empty_inputs += long( g.single.size() + g.multi.size() );
       judge_list( g.single, g.e, b, n );
@@ -205,10 +201,10 @@ namespace
       return gb.base;
    }
 
-   inline void fill( verif::guarded_buffer& gb, const std::string& s ) { std::memcpy( gb.base, s.data(), s.size() ); }
+   [[maybe_unused]] inline void fill( verif::guarded_buffer& gb, const std::string& s ) { std::memcpy( gb.base, s.data(), s.size() ); }
 
    // runs every rule of the group on `bytes` placed in a fresh exact block
-   void probe_exact( group& g, const std::string& bytes )
+   [[maybe_unused]] void probe_exact( group& g, const std::string& bytes )
    {
       verif::guarded_buffer& gb = exact( bytes.size() );
       fill( gb, bytes );
@@ -216,7 +212,7 @@ namespace
    }
 
    // ... on a prefix of a larger poisoned block whose tail holds `filler`
-   void probe_poisoned( group& g, const std::string& bytes, const std::string& filler )
+   [[maybe_unused]] void probe_poisoned( group& g, const std::string& bytes, const std::string& filler )
    {
       verif::guarded_buffer gb( bytes, 1, filler );
       V.cur_data = gb.base;
@@ -227,7 +223,7 @@ namespace
    }
 
    // ... starting at an odd address (one pad byte in front), still ending at the red zone
-   void probe_unaligned( group& g, const std::string& bytes )
+   [[maybe_unused]] void probe_unaligned( group& g, const std::string& bytes )
    {
       verif::guarded_buffer& gb = exact( bytes.size() + 1 );
       use( gb );
@@ -236,8 +232,1188 @@ namespace
       judge_group( g, gb.base + 1, bytes.size() );
    }
 
-#include "c10_rules.inc"
-#include "c10_parts.inc"
+   // ------------------------------------------------------------------ the fixed list of rule instantiations, as constant tables
+   // (registration by code -- one call with a few temporaries per rule -- took minutes to compile under ASan).
+   // A row holds the rule, its runner, and the documented set of each of its units as closed spans lo,hi
+   // (a single value v is the span v,v), optionally complemented (NOT) and applied to ( value & mask ).
+   // Template arguments of the ASCII range rules never straddle 0x7f/0x80, so that the documented
+   // "closed range C ... D" is the same set whether char is signed or not.
+   enum : unsigned
+   {
+      CORE = 1,    // also used in the very large sweeps
+      NOT = 2,     // complement of the listed spans
+      FOLD = 4,    // istring: each listed byte stands for its ASCII case-insensitive class
+      NAME = 8,    // build the printed name from kind, mask and values (the text names macro parameters)
+      PTS = 16,    // NAME: the template arguments are single values, not lo,hi pairs
+      ODD = 32,    // NAME: the last argument is a single value behind the pairs
+      MASKED = 64  // NAME: the first template argument is the mask
+   };
+
+   struct spec
+   {
+      const char* family;
+      const char* kind;
+      const char* text;
+      enc e;
+      parse_fn run;
+      unsigned flags;
+      u64 mask;
+      unsigned units;
+      unsigned char spans[ 3 ];  // per unit
+      u64 d[ 14 ];               // lo, hi, lo, hi ...
+      vset ( *named )();         // documented class from oracles/ascii_classes.hpp, instead of spans
+   };
+
+#define UNPAREN( ... ) __VA_ARGS__
+#define ROW( fam, kind, e, flags, mask, units, n0, n1, n2, data, named, ... ) { fam, kind, #__VA_ARGS__, e, &parse_rule< __VA_ARGS__ >, flags, mask, units, { n0, n1, n2 }, { UNPAREN data }, named },
+
+   void load( const spec& s )
+   {
+      seq_t seq;
+      const u64* p = s.d;
+      for( unsigned u = 0; u < s.units; ++u ) {
+         vset v;
+         if( s.named != nullptr && u == 0 && s.spans[ 0 ] == 0 ) v = s.named();
+         for( unsigned i = 0; i < s.spans[ u ]; ++i, p += 2 ) {
+            if( s.flags & FOLD ) v = oracle::ascii_doc::caseless( static_cast< unsigned char >( p[ 0 ] ) );
+            else v.spans.emplace_back( p[ 0 ], p[ 1 ] );
+         }
+         v.mask = s.mask;
+         v.complement = ( s.flags & NOT ) != 0;
+         seq.push_back( std::move( v ) );
+      }
+      std::string text = s.text;
+      if( s.flags & NAME ) {
+         std::vector< u64 > a;
+         if( s.flags & MASKED ) a.push_back( s.mask );
+         p = s.d;
+         for( unsigned u = 0; u < s.units; ++u )
+            for( unsigned i = 0; i < s.spans[ u ]; ++i, p += 2 ) {
+               a.push_back( p[ 0 ] );
+               if( !( s.flags & PTS ) && !( ( s.flags & ODD ) && i + 1 == s.spans[ u ] ) ) a.push_back( p[ 1 ] );
+            }
+         text = std::string( s.kind ) + "<";
+         for( std::size_t i = 0; i < a.size(); ++i ) {
+            char b[ 24 ];
+            std::snprintf( b, sizeof b, "%s0x%llx", i ? "," : "", (unsigned long long)a[ i ] );
+            text += b;
+         }
+         text += ">";
+      }
+      entry& r = add( s.family, s.kind, text, s.e, s.run, std::move( seq ) );
+      r.core = ( s.flags & CORE ) != 0;
+   }
+
+   template< std::size_t N >
+   void load_all( const spec ( &t )[ N ] )
+   {
+      for( const spec& s : t ) load( s );
+   }
+
+   // bytes as the documentation lists them: by their unsigned value
+   constexpr u64 uc( const char c ) { return static_cast< unsigned char >( c ); }
+   constexpr char ch( const unsigned v ) { return static_cast< char >( static_cast< unsigned char >( v ) ); }
+   constexpr enc B = enc::bytes;
+
+#if HAS( 0 )
+   constexpr spec ascii_rows[] = {
+
+      ROW( "ascii", "alnum", B, 0, ~u64( 0 ), 1, 0, 0, 0, (  ), &oracle::ascii_doc::alnum, pegtl::alnum )
+      ROW( "ascii", "alpha", B, 0, ~u64( 0 ), 1, 0, 0, 0, (  ), &oracle::ascii_doc::alpha, pegtl::alpha )
+      ROW( "ascii", "any", B, 0, ~u64( 0 ), 1, 0, 0, 0, (  ), &oracle::ascii_doc::any, pegtl::any )
+      ROW( "ascii", "blank", B, 0, ~u64( 0 ), 1, 0, 0, 0, (  ), &oracle::ascii_doc::blank, pegtl::blank )
+      ROW( "ascii", "digit", B, 0, ~u64( 0 ), 1, 0, 0, 0, (  ), &oracle::ascii_doc::digit, pegtl::digit )
+      ROW( "ascii", "identifier_first", B, 0, ~u64( 0 ), 1, 0, 0, 0, (  ), &oracle::ascii_doc::identifier_first, pegtl::identifier_first )
+      ROW( "ascii", "identifier_other", B, 0, ~u64( 0 ), 1, 0, 0, 0, (  ), &oracle::ascii_doc::identifier_other, pegtl::identifier_other )
+      ROW( "ascii", "lower", B, 0, ~u64( 0 ), 1, 0, 0, 0, (  ), &oracle::ascii_doc::lower, pegtl::lower )
+      ROW( "ascii", "nul", B, 0, ~u64( 0 ), 1, 0, 0, 0, (  ), &oracle::ascii_doc::nul, pegtl::nul )
+      ROW( "ascii", "odigit", B, 0, ~u64( 0 ), 1, 0, 0, 0, (  ), &oracle::ascii_doc::odigit, pegtl::odigit )
+      ROW( "ascii", "print", B, 0, ~u64( 0 ), 1, 0, 0, 0, (  ), &oracle::ascii_doc::print, pegtl::print )
+      ROW( "ascii", "seven", B, 0, ~u64( 0 ), 1, 0, 0, 0, (  ), &oracle::ascii_doc::seven, pegtl::seven )
+      ROW( "ascii", "space", B, 0, ~u64( 0 ), 1, 0, 0, 0, (  ), &oracle::ascii_doc::space, pegtl::space )
+      ROW( "ascii", "upper", B, 0, ~u64( 0 ), 1, 0, 0, 0, (  ), &oracle::ascii_doc::upper, pegtl::upper )
+      ROW( "ascii", "xdigit", B, 0, ~u64( 0 ), 1, 0, 0, 0, (  ), &oracle::ascii_doc::xdigit, pegtl::xdigit )
+      ROW( "ascii", "one", B, 0, ~u64( 0 ), 1, 0, 0, 0, (  ), nullptr, pegtl::one<> )
+      ROW( "ascii", "one", B, 0, ~u64( 0 ), 1, 1, 0, 0, ( uc( 'a' ), uc( 'a' ) ), nullptr, pegtl::one< 'a' > )
+      ROW( "ascii", "one", B, 0, ~u64( 0 ), 1, 3, 0, 0, ( uc( 'a' ), uc( 'a' ), uc( 'Z' ), uc( 'Z' ), uc( '0' ), uc( '0' ) ), nullptr, pegtl::one< 'a', 'Z', '0' > )
+      ROW( "ascii", "one", B, 0, ~u64( 0 ), 1, 1, 0, 0, ( 0x00, 0x00 ), nullptr, pegtl::one< ch( 0x00 ) > )
+      ROW( "ascii", "one", B, 0, ~u64( 0 ), 1, 1, 0, 0, ( 0x7f, 0x7f ), nullptr, pegtl::one< ch( 0x7f ) > )
+      ROW( "ascii", "one", B, 0, ~u64( 0 ), 1, 1, 0, 0, ( 0x80, 0x80 ), nullptr, pegtl::one< ch( 0x80 ) > )
+      ROW( "ascii", "one", B, 0, ~u64( 0 ), 1, 1, 0, 0, ( 0xff, 0xff ), nullptr, pegtl::one< ch( 0xff ) > )
+      ROW( "ascii", "one", B, 0, ~u64( 0 ), 1, 4, 0, 0, ( 0x00, 0x00, 0x7f, 0x7f, 0x80, 0x80, 0xff, 0xff ), nullptr, pegtl::one< ch( 0x00 ), ch( 0x7f ), ch( 0x80 ), ch( 0xff ) > )
+      ROW( "ascii", "not_one", B, NOT, ~u64( 0 ), 1, 0, 0, 0, (  ), nullptr, pegtl::not_one<> )
+      ROW( "ascii", "not_one", B, NOT, ~u64( 0 ), 1, 1, 0, 0, ( uc( 'a' ), uc( 'a' ) ), nullptr, pegtl::not_one< 'a' > )
+      ROW( "ascii", "not_one", B, NOT, ~u64( 0 ), 1, 3, 0, 0, ( uc( 'a' ), uc( 'a' ), uc( 'Z' ), uc( 'Z' ), uc( '0' ), uc( '0' ) ), nullptr, pegtl::not_one< 'a', 'Z', '0' > )
+      ROW( "ascii", "not_one", B, NOT, ~u64( 0 ), 1, 1, 0, 0, ( 0x00, 0x00 ), nullptr, pegtl::not_one< ch( 0x00 ) > )
+      ROW( "ascii", "not_one", B, NOT, ~u64( 0 ), 1, 1, 0, 0, ( 0x7f, 0x7f ), nullptr, pegtl::not_one< ch( 0x7f ) > )
+      ROW( "ascii", "not_one", B, NOT, ~u64( 0 ), 1, 1, 0, 0, ( 0x80, 0x80 ), nullptr, pegtl::not_one< ch( 0x80 ) > )
+      ROW( "ascii", "not_one", B, NOT, ~u64( 0 ), 1, 1, 0, 0, ( 0xff, 0xff ), nullptr, pegtl::not_one< ch( 0xff ) > )
+      ROW( "ascii", "not_one", B, NOT, ~u64( 0 ), 1, 4, 0, 0, ( 0x00, 0x00, 0x7f, 0x7f, 0x80, 0x80, 0xff, 0xff ), nullptr, pegtl::not_one< ch( 0x00 ), ch( 0x7f ), ch( 0x80 ), ch( 0xff ) > )
+      ROW( "ascii", "range", B, 0, ~u64( 0 ), 1, 1, 0, 0, ( uc( 'a' ), uc( 'z' ) ), nullptr, pegtl::range< 'a', 'z' > )
+      ROW( "ascii", "range", B, 0, ~u64( 0 ), 1, 1, 0, 0, ( uc( 'm' ), uc( 'm' ) ), nullptr, pegtl::range< 'm', 'm' > )
+      ROW( "ascii", "range", B, 0, ~u64( 0 ), 1, 1, 0, 0, ( 0x00, 0x01 ), nullptr, pegtl::range< ch( 0x00 ), ch( 0x01 ) > )
+      ROW( "ascii", "range", B, 0, ~u64( 0 ), 1, 1, 0, 0, ( 0x00, 0x7f ), nullptr, pegtl::range< ch( 0x00 ), ch( 0x7f ) > )
+      ROW( "ascii", "range", B, 0, ~u64( 0 ), 1, 1, 0, 0, ( 0x7e, 0x7f ), nullptr, pegtl::range< ch( 0x7e ), ch( 0x7f ) > )
+      ROW( "ascii", "range", B, 0, ~u64( 0 ), 1, 1, 0, 0, ( 0x80, 0x81 ), nullptr, pegtl::range< ch( 0x80 ), ch( 0x81 ) > )
+      ROW( "ascii", "range", B, 0, ~u64( 0 ), 1, 1, 0, 0, ( 0x80, 0xff ), nullptr, pegtl::range< ch( 0x80 ), ch( 0xff ) > )
+      ROW( "ascii", "range", B, 0, ~u64( 0 ), 1, 1, 0, 0, ( 0xfe, 0xff ), nullptr, pegtl::range< ch( 0xfe ), ch( 0xff ) > )
+      ROW( "ascii", "not_range", B, NOT, ~u64( 0 ), 1, 1, 0, 0, ( uc( 'a' ), uc( 'z' ) ), nullptr, pegtl::not_range< 'a', 'z' > )
+      ROW( "ascii", "not_range", B, NOT, ~u64( 0 ), 1, 1, 0, 0, ( uc( 'm' ), uc( 'm' ) ), nullptr, pegtl::not_range< 'm', 'm' > )
+      ROW( "ascii", "not_range", B, NOT, ~u64( 0 ), 1, 1, 0, 0, ( 0x00, 0x01 ), nullptr, pegtl::not_range< ch( 0x00 ), ch( 0x01 ) > )
+      ROW( "ascii", "not_range", B, NOT, ~u64( 0 ), 1, 1, 0, 0, ( 0x00, 0x7f ), nullptr, pegtl::not_range< ch( 0x00 ), ch( 0x7f ) > )
+      ROW( "ascii", "not_range", B, NOT, ~u64( 0 ), 1, 1, 0, 0, ( 0x7e, 0x7f ), nullptr, pegtl::not_range< ch( 0x7e ), ch( 0x7f ) > )
+      ROW( "ascii", "not_range", B, NOT, ~u64( 0 ), 1, 1, 0, 0, ( 0x80, 0x81 ), nullptr, pegtl::not_range< ch( 0x80 ), ch( 0x81 ) > )
+      ROW( "ascii", "not_range", B, NOT, ~u64( 0 ), 1, 1, 0, 0, ( 0x80, 0xff ), nullptr, pegtl::not_range< ch( 0x80 ), ch( 0xff ) > )
+      ROW( "ascii", "not_range", B, NOT, ~u64( 0 ), 1, 1, 0, 0, ( 0xfe, 0xff ), nullptr, pegtl::not_range< ch( 0xfe ), ch( 0xff ) > )
+      ROW( "ascii", "ranges", B, 0, ~u64( 0 ), 1, 0, 0, 0, (  ), nullptr, pegtl::ranges<> )
+      ROW( "ascii", "ranges", B, 0, ~u64( 0 ), 1, 1, 0, 0, ( uc( 'x' ), uc( 'x' ) ), nullptr, pegtl::ranges< 'x' > )
+      ROW( "ascii", "ranges", B, 0, ~u64( 0 ), 1, 1, 0, 0, ( uc( 'a' ), uc( 'f' ) ), nullptr, pegtl::ranges< 'a', 'f' > )
+      ROW( "ascii", "ranges", B, 0, ~u64( 0 ), 1, 2, 0, 0, ( uc( 'a' ), uc( 'f' ), uc( '0' ), uc( '9' ) ), nullptr, pegtl::ranges< 'a', 'f', '0', '9' > )
+      ROW( "ascii", "ranges", B, 0, ~u64( 0 ), 1, 3, 0, 0, ( uc( 'a' ), uc( 'f' ), uc( '0' ), uc( '9' ), uc( '_' ), uc( '_' ) ), nullptr, pegtl::ranges< 'a', 'f', '0', '9', '_' > )
+      ROW( "ascii", "ranges", B, 0, ~u64( 0 ), 1, 2, 0, 0, ( 0x00, 0x1f, 0x7f, 0x7f ), nullptr, pegtl::ranges< ch( 0x00 ), ch( 0x1f ), ch( 0x7f ) > )
+      ROW( "ascii", "ranges", B, 0, ~u64( 0 ), 1, 2, 0, 0, ( 0x80, 0xbf, 0x00, 0x7f ), nullptr, pegtl::ranges< ch( 0x80 ), ch( 0xbf ), ch( 0x00 ), ch( 0x7f ) > )
+      ROW( "ascii", "ranges", B, 0, ~u64( 0 ), 1, 2, 0, 0, ( 0x80, 0xfe, 0xff, 0xff ), nullptr, pegtl::ranges< ch( 0x80 ), ch( 0xfe ), ch( 0xff ) > )
+      ROW( "ascii", "ranges", B, 0, ~u64( 0 ), 1, 3, 0, 0, ( 0xc0, 0xff, 0x00, 0x7e, 0x80, 0x80 ), nullptr, pegtl::ranges< ch( 0xc0 ), ch( 0xff ), ch( 0x00 ), ch( 0x7e ), ch( 0x80 ) > )
+      ROW( "ascii", "ranges", B, 0, ~u64( 0 ), 1, 4, 0, 0, ( uc( 'a' ), uc( 'b' ), uc( 'd' ), uc( 'e' ), uc( 'g' ), uc( 'h' ), uc( 'j' ), uc( 'j' ) ), nullptr, pegtl::ranges< 'a', 'b', 'd', 'e', 'g', 'h', 'j', 'j' > )
+      ROW( "ascii", "string", B, 0, ~u64( 0 ), 0, 0, 0, 0, (  ), nullptr, pegtl::string<> )
+      ROW( "ascii", "string", B, 0, ~u64( 0 ), 1, 1, 0, 0, ( uc( 'Z' ), uc( 'Z' ) ), nullptr, pegtl::string< 'Z' > )
+      ROW( "ascii", "string", B, 0, ~u64( 0 ), 2, 1, 1, 0, ( uc( 'a' ), uc( 'a' ), uc( 'b' ), uc( 'b' ) ), nullptr, pegtl::string< 'a', 'b' > )
+      ROW( "ascii", "string", B, 0, ~u64( 0 ), 2, 1, 1, 0, ( uc( 'A' ), uc( 'A' ), uc( 'z' ), uc( 'z' ) ), nullptr, pegtl::string< 'A', 'z' > )
+      ROW( "ascii", "string", B, 0, ~u64( 0 ), 2, 1, 1, 0, ( 0x00, 0x00, 0xff, 0xff ), nullptr, pegtl::string< ch( 0x00 ), ch( 0xff ) > )
+      ROW( "ascii", "string", B, 0, ~u64( 0 ), 2, 1, 1, 0, ( 0x80, 0x80, 0x7f, 0x7f ), nullptr, pegtl::string< ch( 0x80 ), ch( 0x7f ) > )
+      ROW( "ascii", "string", B, 0, ~u64( 0 ), 3, 1, 1, 1, ( uc( 'a' ), uc( 'a' ), uc( 'B' ), uc( 'B' ), uc( 'c' ), uc( 'c' ) ), nullptr, pegtl::string< 'a', 'B', 'c' > )
+      ROW( "ascii", "istring", B, 0, ~u64( 0 ), 0, 0, 0, 0, (  ), nullptr, pegtl::istring<> )
+      ROW( "ascii", "istring", B, FOLD, ~u64( 0 ), 1, 1, 0, 0, ( uc( 'Z' ), uc( 'Z' ) ), nullptr, pegtl::istring< 'Z' > )
+      ROW( "ascii", "istring", B, FOLD, ~u64( 0 ), 1, 1, 0, 0, ( uc( '@' ), uc( '@' ) ), nullptr, pegtl::istring< '@' > )
+      ROW( "ascii", "istring", B, FOLD, ~u64( 0 ), 2, 1, 1, 0, ( uc( 'a' ), uc( 'a' ), uc( 'b' ), uc( 'b' ) ), nullptr, pegtl::istring< 'a', 'b' > )
+      ROW( "ascii", "istring", B, FOLD, ~u64( 0 ), 2, 1, 1, 0, ( uc( 'A' ), uc( 'A' ), uc( 'z' ), uc( 'z' ) ), nullptr, pegtl::istring< 'A', 'z' > )
+      ROW( "ascii", "istring", B, FOLD, ~u64( 0 ), 2, 1, 1, 0, ( uc( '@' ), uc( '@' ), uc( '[' ), uc( '[' ) ), nullptr, pegtl::istring< '@', '[' > )
+      ROW( "ascii", "istring", B, FOLD, ~u64( 0 ), 2, 1, 1, 0, ( uc( '`' ), uc( '`' ), uc( '{' ), uc( '{' ) ), nullptr, pegtl::istring< '`', '{' > )
+      ROW( "ascii", "istring", B, FOLD, ~u64( 0 ), 2, 1, 1, 0, ( uc( '1' ), uc( '1' ), uc( '_' ), uc( '_' ) ), nullptr, pegtl::istring< '1', '_' > )
+      ROW( "ascii", "istring", B, FOLD, ~u64( 0 ), 2, 1, 1, 0, ( 0xc1, 0xc1, 0xe1, 0xe1 ), nullptr, pegtl::istring< ch( 0xc1 ), ch( 0xe1 ) > )
+      ROW( "ascii", "istring", B, FOLD, ~u64( 0 ), 2, 1, 1, 0, ( uc( 'k' ), uc( 'k' ), 0x00, 0x00 ), nullptr, pegtl::istring< 'k', ch( 0x00 ) > )
+      ROW( "ascii", "istring", B, FOLD, ~u64( 0 ), 2, 1, 1, 0, ( 0x0a, 0x0a, 0x2a, 0x2a ), nullptr, pegtl::istring< ch( 0x0a ), ch( 0x2a ) > )
+      ROW( "ascii", "istring", B, FOLD, ~u64( 0 ), 3, 1, 1, 1, ( uc( 'a' ), uc( 'a' ), uc( 'B' ), uc( 'B' ), uc( '-' ), uc( '-' ) ), nullptr, pegtl::istring< 'a', 'B', '-' > )
+      ROW( "ascii", "two", B, 0, ~u64( 0 ), 2, 1, 1, 0, ( uc( 'x' ), uc( 'x' ), uc( 'x' ), uc( 'x' ) ), nullptr, pegtl::two< 'x' > )
+      ROW( "ascii", "three", B, 0, ~u64( 0 ), 3, 1, 1, 1, ( uc( 'x' ), uc( 'x' ), uc( 'x' ), uc( 'x' ), uc( 'x' ), uc( 'x' ) ), nullptr, pegtl::three< 'x' > )
+      ROW( "ascii", "ellipsis", B, 0, ~u64( 0 ), 3, 1, 1, 1, ( uc( '.' ), uc( '.' ), uc( '.' ), uc( '.' ), uc( '.' ), uc( '.' ) ), nullptr, pegtl::ellipsis )
+      ROW( "abnf", "ALPHA", B, 0, ~u64( 0 ), 1, 0, 0, 0, (  ), &oracle::rfc5234::ALPHA, pegtl::abnf::ALPHA )
+      ROW( "abnf", "BIT", B, 0, ~u64( 0 ), 1, 0, 0, 0, (  ), &oracle::rfc5234::BIT, pegtl::abnf::BIT )
+      ROW( "abnf", "CHAR", B, 0, ~u64( 0 ), 1, 0, 0, 0, (  ), &oracle::rfc5234::CHAR, pegtl::abnf::CHAR )
+      ROW( "abnf", "CR", B, 0, ~u64( 0 ), 1, 0, 0, 0, (  ), &oracle::rfc5234::CR, pegtl::abnf::CR )
+      ROW( "abnf", "CRLF", B, 0, ~u64( 0 ), 2, 1, 1, 0, ( 0x0D, 0x0D, 0x0A, 0x0A ), nullptr, pegtl::abnf::CRLF )
+      ROW( "abnf", "CTL", B, 0, ~u64( 0 ), 1, 0, 0, 0, (  ), &oracle::rfc5234::CTL, pegtl::abnf::CTL )
+      ROW( "abnf", "DIGIT", B, 0, ~u64( 0 ), 1, 0, 0, 0, (  ), &oracle::rfc5234::DIGIT, pegtl::abnf::DIGIT )
+      ROW( "abnf", "DQUOTE", B, 0, ~u64( 0 ), 1, 0, 0, 0, (  ), &oracle::rfc5234::DQUOTE, pegtl::abnf::DQUOTE )
+      ROW( "abnf", "HEXDIG", B, 0, ~u64( 0 ), 1, 0, 0, 0, (  ), &oracle::rfc5234::HEXDIG, pegtl::abnf::HEXDIG )
+      ROW( "abnf", "HTAB", B, 0, ~u64( 0 ), 1, 0, 0, 0, (  ), &oracle::rfc5234::HTAB, pegtl::abnf::HTAB )
+      ROW( "abnf", "LF", B, 0, ~u64( 0 ), 1, 0, 0, 0, (  ), &oracle::rfc5234::LF, pegtl::abnf::LF )
+      ROW( "abnf", "OCTET", B, 0, ~u64( 0 ), 1, 0, 0, 0, (  ), &oracle::rfc5234::OCTET, pegtl::abnf::OCTET )
+      ROW( "abnf", "SP", B, 0, ~u64( 0 ), 1, 0, 0, 0, (  ), &oracle::rfc5234::SP, pegtl::abnf::SP )
+      ROW( "abnf", "VCHAR", B, 0, ~u64( 0 ), 1, 0, 0, 0, (  ), &oracle::rfc5234::VCHAR, pegtl::abnf::VCHAR )
+      ROW( "abnf", "WSP", B, 0, ~u64( 0 ), 1, 0, 0, 0, (  ), &oracle::rfc5234::WSP, pegtl::abnf::WSP )
+   };
+
+#endif
+   // the same packs for utf8, utf16_be/le, utf32_be/le (values are code points)
+#define UNICODE_ROWS( NS, E ) \
+      ROW( #NS, "any", E, CORE | NOT, ~u64( 0 ), 1, 0, 0, 0, (  ), nullptr, pegtl::NS::any ) \
+      ROW( #NS, "bom", E, 0, ~u64( 0 ), 1, 1, 0, 0, ( 0xfeff, 0xfeff ), nullptr, pegtl::NS::bom ) \
+      ROW( #NS, "one", E, 0, ~u64( 0 ), 1, 0, 0, 0, (  ), nullptr, pegtl::NS::one<> ) \
+      ROW( #NS, "one", E, 0, ~u64( 0 ), 1, 1, 0, 0, ( 0x41, 0x41 ), nullptr, pegtl::NS::one< 0x41 > ) \
+      ROW( #NS, "one", E, 0, ~u64( 0 ), 1, 2, 0, 0, ( 0x7f, 0x7f, 0x80, 0x80 ), nullptr, pegtl::NS::one< 0x7f, 0x80 > ) \
+      ROW( #NS, "one", E, 0, ~u64( 0 ), 1, 2, 0, 0, ( 0x7ff, 0x7ff, 0x800, 0x800 ), nullptr, pegtl::NS::one< 0x7ff, 0x800 > ) \
+      ROW( #NS, "one", E, 0, ~u64( 0 ), 1, 2, 0, 0, ( 0xffff, 0xffff, 0x10000, 0x10000 ), nullptr, pegtl::NS::one< 0xffff, 0x10000 > ) \
+      ROW( #NS, "one", E, 0, ~u64( 0 ), 1, 1, 0, 0, ( 0x10ffff, 0x10ffff ), nullptr, pegtl::NS::one< 0x10ffff > ) \
+      ROW( #NS, "one", E, 0, ~u64( 0 ), 1, 3, 0, 0, ( 0xd7ff, 0xd7ff, 0xe000, 0xe000, 0, 0 ), nullptr, pegtl::NS::one< 0xd7ff, 0xe000, 0 > ) \
+      ROW( #NS, "one", E, 0, ~u64( 0 ), 1, 3, 0, 0, ( 0xd800, 0xd800, 0xdfff, 0xdfff, 0x110000, 0x110000 ), nullptr, pegtl::NS::one< 0xd800, 0xdfff, 0x110000 > ) \
+      ROW( #NS, "not_one", E, NOT, ~u64( 0 ), 1, 0, 0, 0, (  ), nullptr, pegtl::NS::not_one<> ) \
+      ROW( #NS, "not_one", E, NOT, ~u64( 0 ), 1, 1, 0, 0, ( 0x41, 0x41 ), nullptr, pegtl::NS::not_one< 0x41 > ) \
+      ROW( #NS, "not_one", E, NOT, ~u64( 0 ), 1, 2, 0, 0, ( 0x7f, 0x7f, 0x80, 0x80 ), nullptr, pegtl::NS::not_one< 0x7f, 0x80 > ) \
+      ROW( #NS, "not_one", E, NOT, ~u64( 0 ), 1, 4, 0, 0, ( 0x7ff, 0x7ff, 0x800, 0x800, 0xffff, 0xffff, 0x10000, 0x10000 ), nullptr, pegtl::NS::not_one< 0x7ff, 0x800, 0xffff, 0x10000 > ) \
+      ROW( #NS, "not_one", E, NOT, ~u64( 0 ), 1, 2, 0, 0, ( 0x10ffff, 0x10ffff, 0, 0 ), nullptr, pegtl::NS::not_one< 0x10ffff, 0 > ) \
+      ROW( #NS, "not_one", E, NOT, ~u64( 0 ), 1, 3, 0, 0, ( 0xd800, 0xd800, 0xdfff, 0xdfff, 0x110000, 0x110000 ), nullptr, pegtl::NS::not_one< 0xd800, 0xdfff, 0x110000 > ) \
+      ROW( #NS, "range", E, 0, ~u64( 0 ), 1, 1, 0, 0, ( 0x20, 0x10ffff ), nullptr, pegtl::NS::range< 0x20, 0x10ffff > ) \
+      ROW( #NS, "range", E, 0, ~u64( 0 ), 1, 1, 0, 0, ( 0, 0x7f ), nullptr, pegtl::NS::range< 0, 0x7f > ) \
+      ROW( #NS, "range", E, 0, ~u64( 0 ), 1, 1, 0, 0, ( 0x80, 0x7ff ), nullptr, pegtl::NS::range< 0x80, 0x7ff > ) \
+      ROW( #NS, "range", E, 0, ~u64( 0 ), 1, 1, 0, 0, ( 0x800, 0xffff ), nullptr, pegtl::NS::range< 0x800, 0xffff > ) \
+      ROW( #NS, "range", E, 0, ~u64( 0 ), 1, 1, 0, 0, ( 0x10000, 0x10ffff ), nullptr, pegtl::NS::range< 0x10000, 0x10ffff > ) \
+      ROW( #NS, "range", E, 0, ~u64( 0 ), 1, 1, 0, 0, ( 0xd7ff, 0xe000 ), nullptr, pegtl::NS::range< 0xd7ff, 0xe000 > ) \
+      ROW( #NS, "range", E, 0, ~u64( 0 ), 1, 1, 0, 0, ( 0xd800, 0xdfff ), nullptr, pegtl::NS::range< 0xd800, 0xdfff > ) \
+      ROW( #NS, "range", E, 0, ~u64( 0 ), 1, 1, 0, 0, ( 0x20ac, 0x20ac ), nullptr, pegtl::NS::range< 0x20ac, 0x20ac > ) \
+      ROW( #NS, "not_range", E, NOT, ~u64( 0 ), 1, 1, 0, 0, ( 0x20, 0x10ffff ), nullptr, pegtl::NS::not_range< 0x20, 0x10ffff > ) \
+      ROW( #NS, "not_range", E, NOT, ~u64( 0 ), 1, 1, 0, 0, ( 0x80, 0x7ff ), nullptr, pegtl::NS::not_range< 0x80, 0x7ff > ) \
+      ROW( #NS, "not_range", E, NOT, ~u64( 0 ), 1, 1, 0, 0, ( 0x800, 0xffff ), nullptr, pegtl::NS::not_range< 0x800, 0xffff > ) \
+      ROW( #NS, "not_range", E, CORE | NOT, ~u64( 0 ), 1, 1, 0, 0, ( 0x10000, 0x10ffff ), nullptr, pegtl::NS::not_range< 0x10000, 0x10ffff > ) \
+      ROW( #NS, "not_range", E, NOT, ~u64( 0 ), 1, 1, 0, 0, ( 0xd7ff, 0xe000 ), nullptr, pegtl::NS::not_range< 0xd7ff, 0xe000 > ) \
+      ROW( #NS, "not_range", E, NOT, ~u64( 0 ), 1, 1, 0, 0, ( 0xd800, 0xdfff ), nullptr, pegtl::NS::not_range< 0xd800, 0xdfff > ) \
+      ROW( #NS, "not_range", E, NOT, ~u64( 0 ), 1, 1, 0, 0, ( 0x20ac, 0x20ac ), nullptr, pegtl::NS::not_range< 0x20ac, 0x20ac > ) \
+      ROW( #NS, "ranges", E, 0, ~u64( 0 ), 1, 0, 0, 0, (  ), nullptr, pegtl::NS::ranges<> ) \
+      ROW( #NS, "ranges", E, 0, ~u64( 0 ), 1, 1, 0, 0, ( 0x41, 0x41 ), nullptr, pegtl::NS::ranges< 0x41 > ) \
+      ROW( #NS, "ranges", E, 0, ~u64( 0 ), 1, 2, 0, 0, ( 0, 0x7f, 0x800, 0xffff ), nullptr, pegtl::NS::ranges< 0, 0x7f, 0x800, 0xffff > ) \
+      ROW( #NS, "ranges", E, 0, ~u64( 0 ), 1, 3, 0, 0, ( 0x80, 0x7ff, 0x10000, 0x10ffff, 0x41, 0x41 ), nullptr, pegtl::NS::ranges< 0x80, 0x7ff, 0x10000, 0x10ffff, 0x41 > ) \
+      ROW( #NS, "ranges", E, 0, ~u64( 0 ), 1, 4, 0, 0, ( 0x7f, 0x80, 0x7ff, 0x800, 0xffff, 0x10000, 0x10ffff, 0x10ffff ), nullptr, pegtl::NS::ranges< 0x7f, 0x80, 0x7ff, 0x800, 0xffff, 0x10000, 0x10ffff > ) \
+      ROW( #NS, "ranges", E, CORE, ~u64( 0 ), 1, 6, 0, 0, ( 0, 0x3f, 0x80, 0x3ff, 0x800, 0x3fff, 0x10000, 0x3ffff, 0x80000, 0xbffff, 0x10ffff, 0x10ffff ), nullptr, pegtl::NS::ranges< 0, 0x3f, 0x80, 0x3ff, 0x800, 0x3fff, 0x10000, 0x3ffff, 0x80000, 0xbffff, 0x10ffff > ) \
+      ROW( #NS, "string", E, 0, ~u64( 0 ), 1, 1, 0, 0, ( 0x20ac, 0x20ac ), nullptr, pegtl::NS::string< 0x20ac > ) \
+      ROW( #NS, "string", E, 0, ~u64( 0 ), 2, 1, 1, 0, ( 0x41, 0x41, 0x20ac, 0x20ac ), nullptr, pegtl::NS::string< 0x41, 0x20ac > ) \
+      ROW( #NS, "string", E, 0, ~u64( 0 ), 3, 1, 1, 1, ( 0x10ffff, 0x10ffff, 0x7f, 0x7f, 0x80, 0x80 ), nullptr, pegtl::NS::string< 0x10ffff, 0x7f, 0x80 > ) \
+      ROW( #NS, "string", E, 0, ~u64( 0 ), 2, 1, 1, 0, ( 0x10000, 0x10000, 0xffff, 0xffff ), nullptr, pegtl::NS::string< 0x10000, 0xffff > ) \
+
+#if HAS( 0 )
+   constexpr spec utf8_rows[] = { UNICODE_ROWS( utf8, enc::utf8 ) };
+#endif
+#if HAS( 1 )
+   constexpr spec utf16_be_rows[] = { UNICODE_ROWS( utf16_be, enc::utf16_be ) };
+   constexpr spec utf16_le_rows[] = { UNICODE_ROWS( utf16_le, enc::utf16_le ) };
+   constexpr spec utf32_be_rows[] = { UNICODE_ROWS( utf32_be, enc::utf32_be ) };
+   constexpr spec utf32_le_rows[] = { UNICODE_ROWS( utf32_le, enc::utf32_le ) };
+#endif
+
+   // binary rules: constants with all bytes different (a wrong byte order changes the value); LO's bits are a
+   // subset of HI's and LO2's of HI2's, so that ( LO & M ) <= ( HI & M ) for every mask M
+#define UINT_PLAIN_ROWS( ... ) UINT_PLAIN_ROWS_( __VA_ARGS__ )
+#define UINT_MASKED_ROWS( ... ) UINT_MASKED_ROWS_( __VA_ARGS__ )
+#define ALL1 ~u64( 0 )
+#define UINT_PLAIN_ROWS_( NS, E, T, K1, K2, LO, HI, LO2, HI2 ) \
+      ROW( #NS, "any", E, CORE | NOT, ALL1, 1, 0, 0, 0, (), nullptr, pegtl::NS::any ) \
+      ROW( #NS, "one", E, 0, ALL1, 1, 0, 0, 0, (), nullptr, pegtl::NS::one<> ) \
+      ROW( #NS, "one", E, NAME | PTS, ALL1, 1, 1, 0, 0, ( T( K1 ), T( K1 ) ), nullptr, pegtl::NS::one< T( K1 ) > ) \
+      ROW( #NS, "one", E, NAME | PTS, ALL1, 1, 3, 0, 0, ( T( K1 ), T( K1 ), T( K2 ), T( K2 ), T( LO ), T( LO ) ), nullptr, pegtl::NS::one< T( K1 ), T( K2 ), T( LO ) > ) \
+      ROW( #NS, "not_one", E, NOT, ALL1, 1, 0, 0, 0, (), nullptr, pegtl::NS::not_one<> ) \
+      ROW( #NS, "not_one", E, NAME | PTS | NOT, ALL1, 1, 1, 0, 0, ( T( K1 ), T( K1 ) ), nullptr, pegtl::NS::not_one< T( K1 ) > ) \
+      ROW( #NS, "not_one", E, NAME | PTS | NOT, ALL1, 1, 3, 0, 0, ( T( K1 ), T( K1 ), T( K2 ), T( K2 ), T( HI ), T( HI ) ), nullptr, pegtl::NS::not_one< T( K1 ), T( K2 ), T( HI ) > ) \
+      ROW( #NS, "range", E, NAME | CORE, ALL1, 1, 1, 0, 0, ( T( LO ), T( HI ) ), nullptr, pegtl::NS::range< T( LO ), T( HI ) > ) \
+      ROW( #NS, "range", E, NAME, ALL1, 1, 1, 0, 0, ( T( K1 ), T( K1 ) ), nullptr, pegtl::NS::range< T( K1 ), T( K1 ) > ) \
+      ROW( #NS, "range", E, NAME, ALL1, 1, 1, 0, 0, ( 0, T( ~T( 0 ) ) ), nullptr, pegtl::NS::range< T( 0 ), T( ~T( 0 ) ) > ) \
+      ROW( #NS, "not_range", E, NAME | NOT, ALL1, 1, 1, 0, 0, ( T( LO ), T( HI ) ), nullptr, pegtl::NS::not_range< T( LO ), T( HI ) > ) \
+      ROW( #NS, "not_range", E, NAME | NOT, ALL1, 1, 1, 0, 0, ( T( K2 ), T( K2 ) ), nullptr, pegtl::NS::not_range< T( K2 ), T( K2 ) > ) \
+      ROW( #NS, "ranges", E, 0, ALL1, 1, 0, 0, 0, (), nullptr, pegtl::NS::ranges<> ) \
+      ROW( #NS, "ranges", E, NAME | PTS, ALL1, 1, 1, 0, 0, ( T( K2 ), T( K2 ) ), nullptr, pegtl::NS::ranges< T( K2 ) > ) \
+      ROW( #NS, "ranges", E, NAME, ALL1, 1, 2, 0, 0, ( T( LO ), T( HI ), T( LO2 ), T( HI2 ) ), nullptr, pegtl::NS::ranges< T( LO ), T( HI ), T( LO2 ), T( HI2 ) > ) \
+      ROW( #NS, "ranges", E, NAME | ODD, ALL1, 1, 3, 0, 0, ( T( LO ), T( HI ), T( LO2 ), T( HI2 ), T( K2 ), T( K2 ) ), nullptr, pegtl::NS::ranges< T( LO ), T( HI ), T( LO2 ), T( HI2 ), T( K2 ) > ) \
+      ROW( #NS, "string", E, NAME | PTS, ALL1, 1, 1, 0, 0, ( T( K1 ), T( K1 ) ), nullptr, pegtl::NS::string< T( K1 ) > ) \
+      ROW( #NS, "string", E, NAME | PTS, ALL1, 2, 1, 1, 0, ( T( K1 ), T( K1 ), T( K2 ), T( K2 ) ), nullptr, pegtl::NS::string< T( K1 ), T( K2 ) > ) \
+      ROW( #NS, "mask_one", E, NAME | PTS | MASKED, 0xff, 1, 1, 0, 0, ( T( K1 ), T( K1 ) ), nullptr, pegtl::NS::mask_one< T( 0xff ), T( K1 ) > )
+
+#define AM( T, X, M ) T( T( X ) & T( M ) )
+#define UINT_MASKED_ROWS_( NS, E, T, M, K1, K2, LO, HI, LO2, HI2 ) \
+      ROW( #NS, "mask_one", E, NAME | PTS | MASKED, T( M ), 1, 2, 0, 0, ( AM( T, K1, M ), AM( T, K1, M ), AM( T, K2, M ), AM( T, K2, M ) ), nullptr, pegtl::NS::mask_one< T( M ), AM( T, K1, M ), AM( T, K2, M ) > ) \
+      ROW( #NS, "mask_not_one", E, NAME | PTS | MASKED | NOT, T( M ), 1, 1, 0, 0, ( AM( T, K1, M ), AM( T, K1, M ) ), nullptr, pegtl::NS::mask_not_one< T( M ), AM( T, K1, M ) > ) \
+      ROW( #NS, "mask_range", E, NAME | MASKED, T( M ), 1, 1, 0, 0, ( AM( T, LO, M ), AM( T, HI, M ) ), nullptr, pegtl::NS::mask_range< T( M ), AM( T, LO, M ), AM( T, HI, M ) > ) \
+      ROW( #NS, "mask_not_range", E, NAME | MASKED | NOT, T( M ), 1, 1, 0, 0, ( AM( T, LO, M ), AM( T, HI, M ) ), nullptr, pegtl::NS::mask_not_range< T( M ), AM( T, LO, M ), AM( T, HI, M ) > ) \
+      ROW( #NS, "mask_ranges", E, NAME | MASKED, T( M ), 1, 2, 0, 0, ( AM( T, LO, M ), AM( T, HI, M ), AM( T, LO2, M ), AM( T, HI2, M ) ), nullptr, pegtl::NS::mask_ranges< T( M ), AM( T, LO, M ), AM( T, HI, M ), AM( T, LO2, M ), AM( T, HI2, M ) > ) \
+      ROW( #NS, "mask_ranges", E, NAME | MASKED | ODD, T( M ), 1, 3, 0, 0, ( AM( T, LO, M ), AM( T, HI, M ), AM( T, LO2, M ), AM( T, HI2, M ), AM( T, K2, M ), AM( T, K2, M ) ), nullptr, pegtl::NS::mask_ranges< T( M ), AM( T, LO, M ), AM( T, HI, M ), AM( T, LO2, M ), AM( T, HI2, M ), AM( T, K2, M ) > ) \
+      ROW( #NS, "mask_string", E, NAME | PTS | MASKED, T( M ), 2, 1, 1, 0, ( AM( T, K1, M ), AM( T, K1, M ), AM( T, K2, M ), AM( T, K2, M ) ), nullptr, pegtl::NS::mask_string< T( M ), AM( T, K1, M ), AM( T, K2, M ) > )
+
+#define U8_ARGS 0x12, 0xfe, 0x10, 0x7a, 0x80, 0xc5
+#define U16_ARGS 0x1234, 0xfe01, 0x0100, 0x7f02, 0x8000, 0xc0f0
+#define U32_ARGS 0x12345678, 0xfedcba98, 0x01000000, 0x7f020301, 0x80000000, 0xc00000f0
+#define U64_ARGS 0x0123456789abcdefull, 0xfedcba9876543210ull, 0x0100000000000000ull, 0x7f02030405060708ull, 0x8000000000000000ull, 0xc0000000000000f0ull
+
+#define U8M( M ) UINT_MASKED_ROWS( uint8, enc::uint8, std::uint8_t, M, U8_ARGS )
+#if HAS( 2 )
+   constexpr spec uint8_rows[] = {
+      UINT_PLAIN_ROWS( uint8, enc::uint8, std::uint8_t, U8_ARGS )
+      U8M( 0x00 ) U8M( 0xff ) U8M( 0xf0 ) U8M( 0x0f ) U8M( 0x80 ) U8M( 0x01 ) U8M( 0x7f ) U8M( 0x55 ) U8M( 0xaa ) U8M( 0x3c )
+   };
+
+#endif
+#define U16M( NS, E, M ) UINT_MASKED_ROWS( NS, E, std::uint16_t, M, U16_ARGS )
+#define U16_ROWS( NS, E ) UINT_PLAIN_ROWS( NS, E, std::uint16_t, U16_ARGS ) \
+      U16M( NS, E, 0x0000 ) U16M( NS, E, 0xffff ) U16M( NS, E, 0xff00 ) U16M( NS, E, 0x00ff ) U16M( NS, E, 0x8000 ) U16M( NS, E, 0x0001 ) \
+      U16M( NS, E, 0x7fff ) U16M( NS, E, 0xf00f ) U16M( NS, E, 0x0ff0 ) U16M( NS, E, 0x5555 ) U16M( NS, E, 0xaaaa ) U16M( NS, E, 0x8001 )
+#if HAS( 4 )
+   constexpr spec uint16_be_rows[] = { U16_ROWS( uint16_be, enc::uint16_be ) };
+   constexpr spec uint16_le_rows[] = { U16_ROWS( uint16_le, enc::uint16_le ) };
+
+#endif
+#define U32M( NS, E, M ) UINT_MASKED_ROWS( NS, E, std::uint32_t, M, U32_ARGS )
+#define U32_ROWS( NS, E ) UINT_PLAIN_ROWS( NS, E, std::uint32_t, U32_ARGS ) \
+      U32M( NS, E, 0x00000000 ) U32M( NS, E, 0xffffffff ) U32M( NS, E, 0xff000000 ) U32M( NS, E, 0x000000ff ) \
+      U32M( NS, E, 0x80000001 ) U32M( NS, E, 0x00ffff00 ) U32M( NS, E, 0x55555555 ) U32M( NS, E, 0x0f0f0f0f )
+#if HAS( 5 )
+   constexpr spec uint32_be_rows[] = { U32_ROWS( uint32_be, enc::uint32_be ) };
+   constexpr spec uint32_le_rows[] = { U32_ROWS( uint32_le, enc::uint32_le ) };
+
+#endif
+#define U64M( NS, E, M ) UINT_MASKED_ROWS( NS, E, std::uint64_t, M, U64_ARGS )
+#define U64_ROWS( NS, E ) UINT_PLAIN_ROWS( NS, E, std::uint64_t, U64_ARGS ) \
+      U64M( NS, E, 0x0000000000000000ull ) U64M( NS, E, 0xffffffffffffffffull ) U64M( NS, E, 0xff00000000000000ull ) U64M( NS, E, 0x00000000000000ffull ) \
+      U64M( NS, E, 0x8000000000000001ull ) U64M( NS, E, 0x00ffffffffffff00ull ) U64M( NS, E, 0x5555555555555555ull ) U64M( NS, E, 0x0f0f0f0f0f0f0f0full )
+#if HAS( 5 )
+   constexpr spec uint64_be_rows[] = { U64_ROWS( uint64_be, enc::uint64_be ) };
+   constexpr spec uint64_le_rows[] = { U64_ROWS( uint64_le, enc::uint64_le ) };
+
+#endif
+
+   // uint8: mask_one and mask_not_range for every one of the 256 masks (two halves: compile time)
+   template< std::size_t Base, std::size_t... Is >
+   [[maybe_unused]] void load_uint8_masks( std::index_sequence< Is... > /*unused*/ )
+   {
+      using u8 = std::uint8_t;
+      static constexpr spec rows[] = {
+         spec{ "uint8", "mask_one", "", enc::uint8, &parse_rule< pegtl::uint8::mask_one< u8( Base + Is ), u8( ( Base + Is ) & 0xA5 ) > >, NAME | PTS | MASKED, u64( Base + Is ), 1, { 1, 0, 0 }, { ( Base + Is ) & 0xA5, ( Base + Is ) & 0xA5 }, nullptr }...,
+         spec{ "uint8", "mask_not_range", "", enc::uint8, &parse_rule< pegtl::uint8::mask_not_range< u8( Base + Is ), u8( ( Base + Is ) & 0x18 ), u8( ( Base + Is ) & 0x3C ) > >, NAME | MASKED | NOT, u64( Base + Is ), 1, { 1, 0, 0 }, { ( Base + Is ) & 0x18, ( Base + Is ) & 0x3C }, nullptr }...
+      };
+      load_all( rows );
+   }
+
+   void register_rules()
+   {
+#if HAS( 0 )
+      load_all( ascii_rows );
+      load_all( utf8_rows );
+#endif
+#if HAS( 1 )
+      load_all( utf16_be_rows );
+      load_all( utf16_le_rows );
+      load_all( utf32_be_rows );
+      load_all( utf32_le_rows );
+#endif
+#if HAS( 2 )
+      load_all( uint8_rows );
+      load_uint8_masks< 0 >( std::make_index_sequence< 128 >() );
+#endif
+#if HAS( 3 )
+      load_uint8_masks< 128 >( std::make_index_sequence< 128 >() );
+#endif
+#if HAS( 4 )
+      load_all( uint16_be_rows );
+      load_all( uint16_le_rows );
+#endif
+#if HAS( 5 )
+      load_all( uint32_be_rows );
+      load_all( uint32_le_rows );
+      load_all( uint64_be_rows );
+      load_all( uint64_le_rows );
+#endif
+   }
+
+#if HAS( 0 ) || HAS( 2 ) || HAS( 3 )
+   // ------------------------------------------------------------------ A: one-byte rules (ascii, abnf, uint8): all 256 bytes
+   void part_byte_classes( const std::string& fam )
+   {
+      group& g = grp( fam );
+      for( entry* r : g.single ) {
+         verif::guarded_buffer &b0 = exact( 0 ), &b1 = exact( 1 ), &b2 = exact( 2 );
+         if( !V.begin_case( "C10", r->label, b1.base, 1 ) ) continue;
+         const vset& s = r->seq[ 0 ];
+         use( b0 );
+         judge( *r, b0.base, 0, false, 0 );
+         ++g_empty_inputs;
+         use( b1 );
+         int member = -1, other = -1;
+         for( unsigned v = 0; v < 256; ++v ) {
+            b1.base[ 0 ] = char( v );
+            const bool in = s.has( v );
+            judge( *r, b1.base, 1, in, 1 );
+            if( in && member < 0 ) member = int( v );
+            if( !in && other < 0 ) other = int( v );
+         }
+         use( b2 );  // trailing bytes after the unit
+         for( unsigned v = 0; v < 256; ++v )
+            for( const unsigned t : { 0x00u, 0x61u, 0x80u, 0xffu, v, v ^ 0x20u } ) {
+               b2.base[ 0 ] = char( v );
+               b2.base[ 1 ] = char( t );
+               judge( *r, b2.base, 2, s.has( v ), 1 );
+            }
+         // poisoned tail holding a member byte: an over-read would turn the rejection into a match
+         if( member >= 0 ) {
+            const std::string m( 1, char( member ) );
+            {
+               verif::guarded_buffer p( std::string(), 1, m );
+               judge( *r, p.begin(), 0, false, 0 );
+               ++g_empty_inputs;
+            }
+            {
+               verif::guarded_buffer p( m, 1, m );
+               V.cur_data = p.base;
+               judge( *r, p.begin(), 1, true, 1 );
+               V.cur_data = nullptr;
+            }
+            if( other >= 0 ) {
+               verif::guarded_buffer p( std::string( 1, char( other ) ), 1, m );
+               V.cur_data = p.base;
+               judge( *r, p.begin(), 1, false, 0 );
+               V.cur_data = nullptr;
+            }
+         }
+         V.cur_len = 0;
+      }
+   }
+
+   // ------------------------------------------------------------------ B: byte strings (string, istring, two, three, CRLF, uint8::string ...)
+   void sweep_alphabet( entry& r, const std::vector< unsigned char >& alpha, const std::size_t len )
+   {
+      verif::guarded_buffer& gb = exact( len );
+      use( gb );
+      std::vector< std::size_t > idx( len, 0 );
+      for( ;; ) {
+         for( std::size_t i = 0; i < len; ++i ) gb.base[ i ] = char( alpha[ idx[ i ] ] );
+         judge_seq( r, gb.base, len );
+         std::size_t k = 0;
+         while( k < len && ++idx[ k ] == alpha.size() ) idx[ k++ ] = 0;
+         if( k == len ) break;
+      }
+   }
+
+   void part_byte_strings( const std::string& fam )
+   {
+      group& g = grp( fam );
+      for( entry* r : g.multi ) {
+         verif::guarded_buffer &b0 = exact( 0 ), &b1 = exact( 1 ), &b2 = exact( 2 ), &b3 = exact( 3 );
+         if( !V.begin_case( "C10", r->label, b2.base, 2 ) ) continue;
+         use( b0 );
+         judge_seq( *r, b0.base, 0 );
+         ++g_empty_inputs;
+         use( b1 );
+         for( unsigned v = 0; v < 256; ++v ) {
+            b1.base[ 0 ] = char( v );
+            judge_seq( *r, b1.base, 1 );
+         }
+         use( b2 );  // all 2^16 two-byte inputs
+         for( unsigned v = 0; v < 65536; ++v ) {
+            b2.base[ 0 ] = char( v >> 8 );
+            b2.base[ 1 ] = char( v & 255 );
+            judge_seq( *r, b2.base, 2 );
+         }
+         use( b3 );  // ... and with one more byte behind them
+         for( unsigned v = 0; v < 65536; ++v ) {
+            b3.base[ 0 ] = char( v >> 8 );
+            b3.base[ 1 ] = char( v & 255 );
+            b3.base[ 2 ] = char( ( v >> 8 ) ^ 0x20 );
+            judge_seq( *r, b3.base, 3 );
+         }
+         if( r->seq.size() >= 3 ) {
+            // alphabet: the rule's own bytes and their neighbours under the folds a wrong implementation could apply
+            std::vector< unsigned char > alpha = { 0x00, 0xff };
+            for( const vset& s : r->seq )
+               for( const auto& sp : s.spans )
+                  for( const u64 x : { sp.first, sp.first ^ 0x20, sp.first ^ 0x80, sp.first ^ 0xA0, sp.first + 1, sp.first - 1, sp.first ^ 0x40 } ) alpha.push_back( static_cast< unsigned char >( x ) );
+            std::sort( alpha.begin(), alpha.end() );
+            alpha.erase( std::unique( alpha.begin(), alpha.end() ), alpha.end() );
+            sweep_alphabet( *r, alpha, 3 );
+            if( alpha.size() > 12 ) alpha.resize( 12 );
+            sweep_alphabet( *r, alpha, 4 );
+         }
+         // truncated by one byte, the missing byte sitting in the poisoned tail
+         if( !r->seq.empty() ) {
+            std::string full;
+            for( const vset& s : r->seq ) full += char( s.spans.empty() ? 0 : s.spans[ 0 ].first );
+            const std::string cut = full.substr( 0, full.size() - 1 );
+            verif::guarded_buffer p( cut, 1, full.substr( full.size() - 1 ) );
+            V.cur_data = p.base;
+            V.cur_len = p.size;
+            judge_seq( *r, p.begin(), cut.size() );
+            if( cut.empty() ) ++g_empty_inputs;
+            V.cur_data = nullptr;
+         }
+         V.cur_len = 0;
+         V.sample( "{\"part\":\"byte strings\",\"rule\":\"" + verif::jesc( r->name ) + "\",\"inputs\":\"empty, all 256 one-byte, all 65536 two-byte, 65536 three-byte\"}" );
+      }
+   }
+
+#endif
+#if HAS( 0 )
+   // ------------------------------------------------------------------ L: abnf::LWSP against RFC 5234 "LWSP = *(WSP / CRLF WSP)"
+   void part_lwsp()
+   {
+      static const char sym[] = { ' ', '\t', '\r', '\n', 'x' };
+      if( !V.begin_case( "C10", "abnf::LWSP" ) ) return;
+      long n_cases = 0;
+      for( std::size_t len = 0; len <= 6; ++len ) {
+         verif::guarded_buffer& gb = exact( len );
+         use( gb );
+         std::size_t total = 1;
+         for( std::size_t i = 0; i < len; ++i ) total *= 5;
+         for( std::size_t code = 0; code < total; ++code ) {
+            std::size_t c = code;
+            for( std::size_t i = 0; i < len; ++i ) {
+               gb.base[ i ] = sym[ c % 5 ];
+               c /= 5;
+            }
+            const std::size_t exp = oracle::rfc5234::LWSP( reinterpret_cast< const unsigned char* >( gb.base ), len );
+            const int got = run_on( &parse_rule< pegtl::abnf::LWSP >, gb.base, gb.base + len );
+            ++n_cases;
+            V.count( exp ? "abnf:LWSP:consumes" : "abnf:LWSP:consumes-nothing" );
+            if( got != int( exp ) ) {
+               V.violation( "C10", std::string( "C10|abnf::LWSP|" ) + ( got < 0 ? "false-reject" : "wrong-length" ),
+                            "abnf::LWSP on " + verif::show( std::string( gb.base, len ) ) + " (" + verif::hex( gb.base, len ) + "): RFC 5234 *(WSP / CRLF WSP) matches " + std::to_string( exp ) + " bytes, got " + describe( got ),
+                            "{\"rule\":\"abnf::LWSP\",\"input_hex\":\"" + verif::hex( gb.base, len ) + "\",\"expected\":" + std::to_string( exp ) + ",\"got\":" + std::to_string( got ) + "}" );
+            }
+         }
+      }
+      V.evaluations += n_cases;
+      V.nontrivial += n_cases - 1;
+      V.cur_len = 0;
+   }
+
+#endif
+   // ------------------------------------------------------------------ shared helpers for the multi-byte encodings
+   [[maybe_unused]] long g_truncated = 0;  // candidates that are a proper prefix of a well-formed unit (all must be rejected)
+
+   [[maybe_unused]] inline void note_truncated( const enc e, const char* b, const std::size_t n )
+   {
+      if( oracle::truncated_unit( e, reinterpret_cast< const unsigned char* >( b ), n ) ) ++g_truncated;
+   }
+
+   // UTF-8 style bytes for any value below 2^21 in a chosen length, with no validity check (overlongs, surrogates, > U+10FFFF)
+#if HAS( 0 ) || HAS( 1 )
+   [[maybe_unused]] std::string raw_utf8( const u64 v, const unsigned len )
+   {
+      std::string s;
+      if( len == 1 ) s += char( v & 0x7f );
+      if( len == 2 ) { s += char( 0xC0 | ( ( v >> 6 ) & 0x1f ) ); s += char( 0x80 | ( v & 0x3f ) ); }
+      if( len == 3 ) { s += char( 0xE0 | ( ( v >> 12 ) & 0x0f ) ); s += char( 0x80 | ( ( v >> 6 ) & 0x3f ) ); s += char( 0x80 | ( v & 0x3f ) ); }
+      if( len == 4 ) { s += char( 0xF0 | ( ( v >> 18 ) & 0x07 ) ); s += char( 0x80 | ( ( v >> 12 ) & 0x3f ) ); s += char( 0x80 | ( ( v >> 6 ) & 0x3f ) ); s += char( 0x80 | ( v & 0x3f ) ); }
+      return s;
+   }
+
+   // every value 0 .. top in blocks of 0x1000: the encoding of each scalar value (all rules; with a trailing unit: core rules),
+   // plus what a careless encoder would write for the non-scalar ones and, for UTF-8, the overlong forms
+   void part_scalar_sweep( const std::string& fam )
+   {
+      group& g = grp( fam );
+      const enc e = g.e;
+      const bool is8 = ( e == enc::utf8 ), is16 = ( e == enc::utf16_be || e == enc::utf16_le );
+      const u64 top = is16 ? 0x110000 : 0x120000;
+      for( u64 base = 0; base < top; base += 0x1000 ) {
+         if( !V.begin_case( "C10", g.single[ 0 ]->label ) ) continue;
+         for( u64 cp = base; cp < base + 0x1000; ++cp ) {
+            std::string bytes = oracle::encode_unit( e, cp );
+            if( bytes.empty() ) {
+               if( is8 ) bytes = raw_utf8( cp, cp < 0x10000 ? 3 : 4 );
+               else bytes = oracle::encode_unit( e == enc::utf16_be ? enc::uint16_be : enc::uint16_le, cp );  // lone surrogate unit
+            }
+            verif::guarded_buffer& gb = exact( bytes.size() );
+            fill( gb, bytes );
+            judge_list( g.single, e, use( gb ), bytes.size() );
+            // the same unit followed by bytes that look like the start of another one
+            verif::guarded_buffer& gt = exact( bytes.size() + 2 );
+            fill( gt, bytes );
+            gt.base[ bytes.size() ] = is8 ? '\x80' : '\xdc';
+            gt.base[ bytes.size() + 1 ] = is8 ? '\xbf' : '\xdc';
+            judge_list( g.core, e, use( gt ), bytes.size() + 2 );
+            if( is8 ) {
+               for( unsigned len = ( cp < 0x80 ? 2 : cp < 0x800 ? 3 : 4 ); len <= 4 && cp < 0x10000; ++len ) {
+                  const std::string ov = raw_utf8( cp, len );
+                  verif::guarded_buffer& go = exact( len );
+                  fill( go, ov );
+                  judge_list( len == 4 ? g.single : g.core, e, use( go ), len );
+                  V.count( "sweep:utf8:overlong-form" );
+               }
+            }
+         }
+         V.count( "sweep:" + fam + ":code-point", 0x1000 );
+      }
+      V.cur_len = 0;
+   }
+
+   // multi-unit rules (string<...>) and unit boundaries: all concatenations of k units from a pool that holds the
+   // rule's own code points / values, their neighbours and ill-formed units; every truncation of each concatenation
+#endif
+   [[maybe_unused]] void part_unit_strings( const std::string& fam, const std::vector< std::string >& bad_units )
+   {
+      group& g = grp( fam );
+      const enc e = g.e;
+      for( entry* r : g.multi ) {
+         if( !V.begin_case( "C10", r->label ) ) continue;
+         std::vector< std::string > pool;
+         for( const vset& s : r->seq )
+            for( const auto& sp : s.spans )
+               for( const u64 x : { sp.first, sp.first + 1, sp.first - 1 } ) {
+                  const std::string u = oracle::encode_unit( e, x );
+                  if( !u.empty() ) pool.push_back( u );
+               }
+         for( const std::string& b : bad_units ) pool.push_back( b );
+         std::sort( pool.begin(), pool.end() );
+         pool.erase( std::unique( pool.begin(), pool.end() ), pool.end() );
+         const std::size_t k = r->seq.size();
+         std::vector< std::size_t > idx( k, 0 );
+         for( ;; ) {
+            std::string cat;
+            for( std::size_t i = 0; i < k; ++i ) cat += pool[ idx[ i ] ];
+            for( std::size_t len = 0; len <= cat.size(); ++len ) {
+               verif::guarded_buffer& gb = exact( len );
+               std::memcpy( gb.base, cat.data(), len );
+               use( gb );
+               judge_seq( *r, gb.base, len );
+               if( len == 0 ) ++g_empty_inputs;
+            }
+            {
+               const std::string more = cat + pool[ idx[ 0 ] ];
+               verif::guarded_buffer& gb = exact( more.size() );
+               fill( gb, more );
+               use( gb );
+               judge_seq( *r, gb.base, more.size() );
+               judge_list( g.core, e, gb.base, more.size() );
+            }
+            if( cat.size() > 1 ) {
+               verif::guarded_buffer p( cat.substr( 0, cat.size() - 1 ), 1, cat.substr( cat.size() - 1 ) );
+               V.cur_data = p.base;
+               V.cur_len = p.size;
+               judge_seq( *r, p.begin(), cat.size() - 1 );
+               V.cur_data = nullptr;
+               V.cur_len = 0;
+            }
+            std::size_t j = 0;
+            while( j < k && ++idx[ j ] == pool.size() ) idx[ j++ ] = 0;
+            if( j == k ) break;
+         }
+         V.count( "sweep:" + fam + ":string-rule-x-pool-unit", long( pool.size() ) );
+      }
+      V.cur_len = 0;
+   }
+
+   // boundary units: every proper prefix on an exact block, on a poisoned block whose tail holds the missing bytes,
+   // and at an odd address; the whole unit likewise. All rules of the family.
+   [[maybe_unused]] void part_truncations( const std::string& fam, const std::vector< std::string >& units )
+   {
+      group& g = grp( fam );
+      if( !V.begin_case( "C10", g.single[ 0 ]->label ) ) return;
+      for( const std::string& u : units ) {
+         for( std::size_t len = 0; len <= u.size(); ++len ) {
+            const std::string pre = u.substr( 0, len );
+            note_truncated( g.e, pre.data(), len );
+            probe_exact( g, pre );
+            probe_poisoned( g, pre, len < u.size() ? u.substr( len ) : u );
+            probe_unaligned( g, pre );
+         }
+         probe_exact( g, u + u );
+      }
+      V.count( "sweep:" + fam + ":boundary-units-truncated-everywhere", long( units.size() ) );
+      V.sample( "{\"part\":\"truncations\",\"family\":\"" + fam + "\",\"unit_hex\":\"" + verif::hex( units.back() ) + "\",\"runs\":\"every prefix: exact block, poisoned block holding the missing bytes, odd address; all rules of the family\"}" );
+      V.cur_len = 0;
+   }
+
+#if HAS( 0 )
+   // ------------------------------------------------------------------ C: UTF-8
+   const unsigned char cont_boundary[] = { 0x00, 0x7f, 0x80, 0x8f, 0x90, 0x9f, 0xa0, 0xbf, 0xc0, 0xff };
+
+   void part_utf8()
+   {
+      group& g = grp( "utf8" );
+      const enc e = enc::utf8;
+      // lengths 0 and 1
+      if( V.begin_case( "C10", "utf8::any" ) ) {
+         probe_exact( g, std::string() );
+         verif::guarded_buffer& b1 = exact( 1 );
+         use( b1 );
+         for( unsigned v = 0; v < 256; ++v ) {
+            b1.base[ 0 ] = char( v );
+            note_truncated( e, b1.base, 1 );
+            judge_group( g, b1.base, 1 );
+         }
+         V.count( "sweep:utf8:all-1-byte", 256 );
+      }
+      // all two-byte inputs
+      for( unsigned hi = 0; hi < 256; hi += 16 ) {
+         verif::guarded_buffer& b2 = exact( 2 );
+         if( !V.begin_case( "C10", "utf8::any", b2.base, 2 ) ) continue;
+         for( unsigned v = hi << 8; v < ( ( hi + 16 ) << 8 ); ++v ) {
+            b2.base[ 0 ] = char( v >> 8 );
+            b2.base[ 1 ] = char( v & 255 );
+            note_truncated( e, b2.base, 2 );
+            judge_group( g, b2.base, 2 );
+         }
+         V.count( "sweep:utf8:all-2-byte", 4096 );
+      }
+      // all three-byte inputs: every rule where the lead byte starts a multi-byte form, the core rules elsewhere
+      for( unsigned lead = 0; lead < 256; ++lead ) {
+         verif::guarded_buffer& b3 = exact( 3 );
+         if( !V.begin_case( "C10", "utf8::any", b3.base, 3 ) ) continue;
+         const std::vector< entry* >& rs = ( lead >= 0xC0 || V.thorough() ) ? g.single : g.core;
+         b3.base[ 0 ] = char( lead );
+         for( unsigned v = 0; v < 65536; ++v ) {
+            b3.base[ 1 ] = char( v >> 8 );
+            b3.base[ 2 ] = char( v & 255 );
+            note_truncated( e, b3.base, 3 );
+            judge_list( rs, e, b3.base, 3 );
+         }
+         V.count( "sweep:utf8:all-3-byte", 65536 );
+      }
+      // four-byte inputs: every lead byte x boundary values of the three following bytes
+      for( unsigned hi = 0; hi < 256; hi += 16 ) {
+         verif::guarded_buffer& b4 = exact( 4 );
+         if( !V.begin_case( "C10", "utf8::any", b4.base, 4 ) ) continue;
+         for( unsigned lead = hi; lead < hi + 16; ++lead )
+            for( const unsigned char c1 : cont_boundary )
+               for( const unsigned char c2 : cont_boundary )
+                  for( const unsigned char c3 : cont_boundary ) {
+                     b4.base[ 0 ] = char( lead );
+                     b4.base[ 1 ] = char( c1 );
+                     b4.base[ 2 ] = char( c2 );
+                     b4.base[ 3 ] = char( c3 );
+                     judge_group( g, b4.base, 4 );
+                  }
+         V.count( "sweep:utf8:4-byte-boundary", 16 * 1000 );
+      }
+      // thorough: the whole four-byte space with a lead byte >= 0xC0, core rules
+      if( V.thorough() ) {
+         for( unsigned top = 0xC000; top < 0x10000; ++top ) {
+            verif::guarded_buffer& b4 = exact( 4 );
+            if( !V.begin_case( "C10", "utf8::any", b4.base, 4 ) ) continue;
+            b4.base[ 0 ] = char( top >> 8 );
+            b4.base[ 1 ] = char( top & 255 );
+            for( unsigned v = 0; v < 65536; ++v ) {
+               b4.base[ 2 ] = char( v >> 8 );
+               b4.base[ 3 ] = char( v & 255 );
+               judge_list( g.core, e, b4.base, 4 );
+            }
+            V.count( "sweep:utf8:all-4-byte-lead>=C0", 65536 );
+         }
+      }
+      V.cur_len = 0;
+   }
+
+   std::vector< std::string > utf8_bad_units()
+   {
+      return { "\xC0\x80", "\xC1\xBF", "\xE0\x80\x80", "\xE0\x9F\xBF", "\xED\xA0\x80", "\xED\xBF\xBF", "\xF0\x80\x80\x80", "\xF0\x8F\xBF\xBF", "\xF4\x90\x80\x80", "\xF7\xBF\xBF\xBF",
+               "\xF8\x88\x80\x80\x80", "\x80", "\xBF", "\xFE", "\xFF", "\xE2\x82", "\xF0\x9F\x98", "\xC3" };
+   }
+
+#endif
+#if HAS( 0 ) || HAS( 1 )
+   [[maybe_unused]] std::vector< std::string > boundary_units( const enc e )
+   {
+      std::vector< std::string > r;
+      for( const u64 cp : { 0x0ull, 0x41ull, 0x7full, 0x80ull, 0x7ffull, 0x800ull, 0xfffull, 0x1000ull, 0x20acull, 0xd7ffull, 0xe000ull, 0xfeffull, 0xfffdull, 0xffffull, 0x10000ull, 0x3ffffull, 0x40000ull, 0xfffffull, 0x100000ull, 0x10ffffull } ) r.push_back( oracle::encode_unit( e, cp ) );
+      return r;
+   }
+
+#endif
+#if HAS( 1 )
+   // ------------------------------------------------------------------ D: UTF-16 (both byte orders see the same byte strings)
+   std::vector< unsigned > utf16_unit_pool()
+   {
+      std::vector< unsigned > u = { 0x0000, 0x0001, 0x0041, 0x007f, 0x0080, 0x00ff, 0x0100, 0x07ff, 0x0800, 0x1234, 0x3412, 0x20ac, 0xac20, 0xd7fe, 0xd7ff, 0xd800, 0xd801, 0xdabc, 0xdbfe, 0xdbff,
+                                    0xdc00, 0xdc01, 0xdeaf, 0xdffe, 0xdfff, 0xe000, 0xe001, 0xfefe, 0xfeff, 0xfffe, 0xffff, 0x00d8, 0xffd7, 0xffdb, 0x00dc, 0xffdf, 0x00e0, 0x01d8, 0x01dc, 0xd8d8, 0xdcdc, 0xdbdf, 0xdfdb };
+      verif::rng r( V.seed * 7919 + 16 );
+      const std::size_t want = V.thorough() ? 512 : 192;
+      while( u.size() < want ) {
+         const unsigned k = unsigned( r.below( 4 ) );
+         u.push_back( k == 0 ? unsigned( r.below( 0x10000 ) ) : k == 1 ? 0xd800 + unsigned( r.below( 0x400 ) ) : k == 2 ? 0xdc00 + unsigned( r.below( 0x400 ) ) : ( ( 0xd8 + unsigned( r.below( 8 ) ) ) | unsigned( r.below( 256 ) << 8 ) ) );
+      }
+      std::sort( u.begin(), u.end() );
+      u.erase( std::unique( u.begin(), u.end() ), u.end() );
+      return u;
+   }
+
+   void part_utf16()
+   {
+      group& be = grp( "utf16_be" );
+      group& le = grp( "utf16_le" );
+      if( V.begin_case( "C10", "utf16_be::any" ) ) {
+         probe_exact( be, std::string() );
+         probe_exact( le, std::string() );
+         verif::guarded_buffer& b1 = exact( 1 );
+         use( b1 );
+         for( unsigned v = 0; v < 256; ++v ) {
+            b1.base[ 0 ] = char( v );
+            ++g_truncated;
+            judge_group( be, b1.base, 1 );
+            judge_group( le, b1.base, 1 );
+         }
+      }
+      // all single units on a two-byte block (a lone high surrogate is a truncated pair)
+      for( unsigned hi = 0; hi < 256; hi += 16 ) {
+         verif::guarded_buffer& b2 = exact( 2 );
+         if( !V.begin_case( "C10", "utf16_be::any", b2.base, 2 ) ) continue;
+         for( unsigned v = hi << 8; v < ( ( hi + 16 ) << 8 ); ++v ) {
+            b2.base[ 0 ] = char( v >> 8 );
+            b2.base[ 1 ] = char( v & 255 );
+            note_truncated( enc::utf16_be, b2.base, 2 );
+            judge_group( be, b2.base, 2 );
+            judge_group( le, b2.base, 2 );
+         }
+         V.count( "sweep:utf16:all-2-byte", 4096 );
+      }
+      // all single units followed by one more byte
+      for( const unsigned third : { 0x00u, 0xdcu, 0xd8u, 0xffu } )
+         for( unsigned hi = 0; hi < 256; hi += 16 ) {
+            verif::guarded_buffer& b3 = exact( 3 );
+            if( !V.begin_case( "C10", "utf16_be::any", b3.base, 3 ) ) continue;
+            b3.base[ 2 ] = char( third );
+            for( unsigned v = hi << 8; v < ( ( hi + 16 ) << 8 ); ++v ) {
+               b3.base[ 0 ] = char( v >> 8 );
+               b3.base[ 1 ] = char( v & 255 );
+               note_truncated( enc::utf16_be, b3.base, 3 );
+               judge_list( be.single, enc::utf16_be, b3.base, 3 );
+               judge_list( le.single, enc::utf16_le, b3.base, 3 );
+            }
+            V.count( "sweep:utf16:all-units-plus-1-byte", 4096 );
+         }
+      // pairs of units from the boundary pool (squared), plus a third unit behind them
+      const std::vector< unsigned > pool = utf16_unit_pool();
+      for( std::size_t i = 0; i < pool.size(); i += 8 ) {
+         verif::guarded_buffer &b4 = exact( 4 ), &b6 = exact( 6 );
+         if( !V.begin_case( "C10", "utf16_be::any", b4.base, 4 ) ) continue;
+         for( std::size_t ii = i; ii < i + 8 && ii < pool.size(); ++ii )
+            for( const unsigned b : pool ) {
+               const unsigned a = pool[ ii ];
+               use( b4 );
+               b4.base[ 0 ] = char( a >> 8 );
+               b4.base[ 1 ] = char( a & 255 );
+               b4.base[ 2 ] = char( b >> 8 );
+               b4.base[ 3 ] = char( b & 255 );
+               judge_group( be, b4.base, 4 );
+               judge_group( le, b4.base, 4 );
+               use( b6 );
+               std::memcpy( b6.base, b4.base, 4 );
+               b6.base[ 4 ] = char( b >> 8 );
+               b6.base[ 5 ] = char( b & 255 );
+               judge_list( be.core, enc::utf16_be, b6.base, 6 );
+               judge_list( le.core, enc::utf16_le, b6.base, 6 );
+               V.count( "sweep:utf16:boundary-pairs" );
+            }
+      }
+      // thorough: more of the 2^32 space of unit pairs, in blocks of 2^16 (one first unit x every second unit), core rules.
+      // Both byte orders read the same four bytes, so one pass over all byte strings enumerates all pairs for both.
+      if( V.thorough() ) {
+         for( unsigned a = 0; a < 65536; ++a ) {
+            verif::guarded_buffer& b4 = exact( 4 );
+            if( !V.begin_case( "C10", "utf16_be::any", b4.base, 4 ) ) continue;
+            b4.base[ 0 ] = char( a >> 8 );
+            b4.base[ 1 ] = char( a & 255 );
+            for( unsigned b = 0; b < 65536; ++b ) {
+               b4.base[ 2 ] = char( b >> 8 );
+               b4.base[ 3 ] = char( b & 255 );
+               judge_list( be.core, enc::utf16_be, b4.base, 4 );
+               judge_list( le.core, enc::utf16_le, b4.base, 4 );
+            }
+            V.count( "sweep:utf16:all-pairs", 65536 );
+         }
+      }
+      V.cur_len = 0;
+   }
+
+#endif
+#if HAS( 1 ) || HAS( 4 ) || HAS( 5 )
+   // ------------------------------------------------------------------ E: UTF-32
+   [[maybe_unused]] std::vector< u64 > structured_values( const unsigned width, const std::vector< u64 >& interesting )
+   {
+      const u64 all = ( width == 8 ) ? ~u64( 0 ) : ( ( u64( 1 ) << ( 8 * width ) ) - 1 );
+      std::vector< u64 > v;
+      auto swap = [ & ]( u64 x ) {
+         u64 y = 0;
+         for( unsigned i = 0; i < width; ++i ) {
+            y = ( y << 8 ) | ( x & 255 );
+            x >>= 8;
+         }
+         return y;
+      };
+      auto both = [ & ]( const u64 x ) {
+         for( const u64 d : { u64( 0 ), u64( 1 ), ~u64( 0 ), u64( 2 ), ~u64( 1 ) } ) {
+            v.push_back( ( x + d ) & all );
+            v.push_back( swap( ( x + d ) & all ) );
+            v.push_back( ( swap( x & all ) + d ) & all );
+         }
+      };
+      for( const u64 x : interesting ) both( x );
+      for( unsigned k = 0; k < 8 * width; ++k ) both( u64( 1 ) << k );
+      for( const u64 x : { u64( 0 ), all, u64( 0x0102030405060708ull ) & all, u64( 0x8040201008040201ull ) & all, u64( 0x00ff00ff00ff00ffull ) & all, u64( 0x7f7f7f7f7f7f7f7full ) & all, u64( 0x8080808080808080ull ) & all } ) both( x );
+      return v;
+   }
+
+   [[maybe_unused]] void dedupe( std::vector< u64 >& v )
+   {
+      // keep the (boundary first) order, drop repeats
+      std::unordered_set< u64 > seen;
+      std::vector< u64 > out;
+      for( const u64 x : v )
+         if( seen.insert( x ).second ) out.push_back( x );
+      v.swap( out );
+   }
+
+#endif
+#if HAS( 1 )
+   void part_utf32()
+   {
+      group& be = grp( "utf32_be" );
+      group& le = grp( "utf32_le" );
+      // short inputs: boundary bytes on blocks of 0..3 bytes
+      if( V.begin_case( "C10", "utf32_be::any" ) ) {
+         static const unsigned char bb[] = { 0x00, 0x01, 0x10, 0x11, 0xd8, 0xdf, 0x7f, 0x80, 0xfe, 0xff };
+         probe_exact( be, std::string() );
+         probe_exact( le, std::string() );
+         for( std::size_t len = 1; len <= 3; ++len ) {
+            verif::guarded_buffer& gb = exact( len );
+            use( gb );
+            std::size_t total = 1;
+            for( std::size_t i = 0; i < len; ++i ) total *= 10;
+            for( std::size_t code = 0; code < total; ++code ) {
+               std::size_t c = code;
+               for( std::size_t i = 0; i < len; ++i ) {
+                  gb.base[ i ] = char( bb[ c % 10 ] );
+                  c /= 10;
+               }
+               ++g_truncated;
+               judge_group( be, gb.base, len );
+               judge_group( le, gb.base, len );
+            }
+         }
+      }
+      // boundary-structured and random 32-bit values, all rules, exact and with four more bytes behind
+      std::vector< u64 > vals = structured_values( 4, { 0x7f, 0x80, 0x7ff, 0x800, 0xd7ff, 0xd800, 0xdbff, 0xdc00, 0xdfff, 0xe000, 0xfeff, 0xfffe, 0xffff, 0x10000, 0x3ffff, 0x40000, 0x80000, 0xbffff, 0xc0000, 0x10ffff, 0x110000, 0x1fffff,
+                                                         0x200000, 0xffffff, 0x1000000, 0x7fffffff, 0x80000000u, 0xfffeffffu, 0x20ac, 0x41 } );
+      {
+         verif::rng r( V.seed * 104729 + 32 );
+         const long nrand = V.thorough() ? 4000000 : 300000;
+         for( long i = 0; i < nrand; ++i ) {
+            const unsigned k = unsigned( r.below( 3 ) );
+            const u64 small = r.below( 0x120000 ), full = r.below( u64( 1 ) << 32 );
+            const u64 turned = ( ( small & 0xff ) << 24 ) | ( ( small & 0xff00 ) << 8 ) | ( ( small >> 8 ) & 0xff00 ) | ( small >> 24 );  // small value for the other byte order
+            vals.push_back( k == 0 ? small : k == 1 ? turned : full );
+         }
+         dedupe( vals );
+      }
+      for( std::size_t i = 0; i < vals.size(); i += 4096 ) {
+         verif::guarded_buffer &b4 = exact( 4 ), &b8 = exact( 8 );
+         if( !V.begin_case( "C10", "utf32_be::any", b4.base, 4 ) ) continue;
+         for( std::size_t j = i; j < i + 4096 && j < vals.size(); ++j ) {
+            use( b4 );
+            oracle::put_msb_first( reinterpret_cast< unsigned char* >( b4.base ), 4, vals[ j ] );
+            judge_group( be, b4.base, 4 );
+            judge_group( le, b4.base, 4 );
+            if( j < 1024 ) {
+               use( b8 );
+               std::memcpy( b8.base, b4.base, 4 );
+               std::memcpy( b8.base + 4, b4.base, 4 );
+               judge_group( be, b8.base, 8 );
+               judge_group( le, b8.base, 8 );
+            }
+            V.count( "sweep:utf32:boundary+random-values" );
+         }
+      }
+      // thorough: every 32-bit unit (one pass over all four-byte strings serves both byte orders), core rules
+      if( V.thorough() ) {
+         for( unsigned a = 0; a < 65536; ++a ) {
+            verif::guarded_buffer& b4 = exact( 4 );
+            if( !V.begin_case( "C10", "utf32_be::any", b4.base, 4 ) ) continue;
+            b4.base[ 0 ] = char( a >> 8 );
+            b4.base[ 1 ] = char( a & 255 );
+            for( unsigned b = 0; b < 65536; ++b ) {
+               b4.base[ 2 ] = char( b >> 8 );
+               b4.base[ 3 ] = char( b & 255 );
+               judge_list( be.core, enc::utf32_be, b4.base, 4 );
+               judge_list( le.core, enc::utf32_le, b4.base, 4 );
+            }
+            V.count( "sweep:utf32:all-units", 65536 );
+         }
+      }
+      V.cur_len = 0;
+   }
+
+#endif
+#if HAS( 4 )
+   // ------------------------------------------------------------------ F: binary rules
+   // uint16: every value for every rule (exact block, and with one / two more bytes), short inputs
+   void part_uint16( const std::string& fam )
+   {
+      group& g = grp( fam );
+      const enc e = g.e;
+      for( entry* r : g.single ) {
+         verif::guarded_buffer &b0 = exact( 0 ), &b1 = exact( 1 ), &b2 = exact( 2 ), &b3 = exact( 3 ), &b4 = exact( 4 );
+         if( !V.begin_case( "C10", r->label, b2.base, 2 ) ) continue;
+         const vset& s = r->seq[ 0 ];
+         use( b0 );
+         judge( *r, b0.base, 0, false, 0 );
+         ++g_empty_inputs;
+         use( b1 );
+         for( unsigned v = 0; v < 256; ++v ) {
+            b1.base[ 0 ] = char( v );
+            judge( *r, b1.base, 1, false, 0 );
+         }
+         g_truncated += 256;
+         use( b2 );
+         for( unsigned v = 0; v < 65536; ++v ) {
+            b2.base[ 0 ] = char( v >> 8 );
+            b2.base[ 1 ] = char( v & 255 );
+            const u64 val = oracle::big_endian( e ) ? v : ( ( v & 255 ) << 8 | v >> 8 );
+            judge( *r, b2.base, 2, s.has( val ), 2 );
+         }
+         use( b3 );
+         for( unsigned v = 0; v < 65536; v += 1 ) {
+            b3.base[ 0 ] = char( v >> 8 );
+            b3.base[ 1 ] = char( v & 255 );
+            b3.base[ 2 ] = char( v >> 8 );
+            const oracle::unit u = oracle::decode_unit( e, reinterpret_cast< const unsigned char* >( b3.base ), 3 );
+            judge( *r, b3.base, 3, u.ok && s.has( u.value ), 2 );
+         }
+         use( b4 );
+         for( unsigned v = 0; v < 65536; v += 7 ) {
+            b4.base[ 0 ] = char( v >> 8 );
+            b4.base[ 1 ] = char( v & 255 );
+            b4.base[ 2 ] = char( v & 255 );
+            b4.base[ 3 ] = char( v >> 8 );
+            const oracle::unit u = oracle::decode_unit( e, reinterpret_cast< const unsigned char* >( b4.base ), 4 );
+            judge( *r, b4.base, 4, u.ok && s.has( u.value ), 2 );
+         }
+         V.cur_len = 0;
+         V.count( "sweep:" + fam + ":rule-x-all-65536-values", 65536 );
+      }
+   }
+
+   // values that matter to the rules of a family: span ends, +-1, with random bits where the mask hides them, in both byte orders
+#endif
+#if HAS( 5 )
+   std::vector< u64 > uint_pool( const std::string& fam_be, const std::string& fam_le, const unsigned width )
+   {
+      const u64 all = ( width == 8 ) ? ~u64( 0 ) : ( ( u64( 1 ) << ( 8 * width ) ) - 1 );
+      verif::rng r( V.seed * 15485863 + width );
+      std::vector< u64 > interesting;
+      for( const std::string& fam : { fam_be, fam_le } )
+         for( const entry& en : g_rules ) {
+            if( en.family != fam ) continue;
+            for( const vset& s : en.seq )
+               for( const auto& sp : s.spans )
+                  for( const u64 x : { sp.first, sp.second } ) {
+                     interesting.push_back( x );
+                     if( ( s.mask & all ) != all )
+                        for( int k = 0; k < 3; ++k )
+                           for( const u64 d : { u64( 0 ), u64( 1 ), ~u64( 0 ) } ) interesting.push_back( ( ( ( x + d ) & s.mask ) | ( r.next() & ~s.mask ) ) & all );
+                  }
+         }
+      std::vector< u64 > v = structured_values( width, interesting );
+      const long nrand = ( width == 4 ) ? ( V.thorough() ? 400000 : 20000 ) : ( V.thorough() ? 200000 : 12000 );
+      for( long i = 0; i < nrand; ++i ) {
+         const u64 x = r.next() & all;
+         const unsigned k = unsigned( r.below( 4 ) );
+         // uniformly random; sparse; dense; near one of the interesting values
+         v.push_back( k == 0 ? x : k == 1 ? ( x & r.next() & r.next() ) : k == 2 ? ( ( x | r.next() | r.next() ) & all ) : ( ( interesting[ r.below( interesting.size() ) ] ^ ( u64( 1 ) << r.below( 8 * width ) ) ) & all ) );
+      }
+      dedupe( v );
+      return v;
+   }
+
+   void part_uint_wide( const std::string& fam, const std::vector< u64 >& pool )
+   {
+      group& g = grp( fam );
+      const enc e = g.e;
+      const unsigned w = oracle::unit_width( e );
+      for( entry* r : g.single ) {
+         verif::guarded_buffer &bw = exact( w ), &b2w = exact( 2 * w );
+         if( !V.begin_case( "C10", r->label, bw.base, w ) ) continue;
+         const vset& s = r->seq[ 0 ];
+         for( std::size_t i = 0; i < pool.size(); ++i ) {
+            use( bw );
+            oracle::put_msb_first( reinterpret_cast< unsigned char* >( bw.base ), w, pool[ i ] );
+            const oracle::unit u = oracle::decode_unit( e, reinterpret_cast< const unsigned char* >( bw.base ), w );
+            judge( *r, bw.base, w, s.has( u.value ), w );
+            if( i < 200 ) {
+               // every truncation (exact block) and the value followed by more bytes
+               for( unsigned len = 0; len < w; ++len ) {
+                  verif::guarded_buffer& bt = exact( len );
+                  std::memcpy( bt.base, bw.base, len );
+                  use( bt );
+                  judge( *r, bt.base, len, false, 0 );
+                  if( len == 0 ) ++g_empty_inputs;
+                  else ++g_truncated;
+               }
+               use( b2w );
+               std::memcpy( b2w.base, bw.base, w );
+               std::memcpy( b2w.base + w, bw.base, w );
+               b2w.base[ w ] ^= 0x55;
+               judge( *r, b2w.base, 2 * w, s.has( u.value ), w );
+            }
+         }
+         V.cur_len = 0;
+         V.count( "sweep:" + fam + ":rule-x-pool-value", long( pool.size() ) );
+      }
+   }
+
+#endif
+#if HAS( 4 ) || HAS( 5 )
+   [[maybe_unused]] std::vector< std::string > first_units( const enc e, const std::vector< u64 >& pool, std::size_t n )
+   {
+      std::vector< std::string > r;
+      for( std::size_t i = 0; i < pool.size() && i < n; ++i ) r.push_back( oracle::encode_unit( e, pool[ i ] ) );
+      return r;
+   }
+
+#endif
+   void run_parts()
+   {
+#if HAS( 0 )
+      part_byte_classes( "ascii" );
+      part_byte_classes( "abnf" );
+      part_byte_strings( "ascii" );
+      part_byte_strings( "abnf" );
+      part_lwsp();
+
+      part_utf8();
+      part_scalar_sweep( "utf8" );
+      part_unit_strings( "utf8", utf8_bad_units() );
+      {
+         std::vector< std::string > u = boundary_units( enc::utf8 );
+         for( const std::string& b : utf8_bad_units() ) u.push_back( b );
+         part_truncations( "utf8", u );
+      }
+#endif
+#if HAS( 1 )
+      part_utf16();
+      for( const char* fam : { "utf16_be", "utf16_le" } ) {
+         const enc e = grp( fam ).e;
+         const enc raw = ( e == enc::utf16_be ) ? enc::uint16_be : enc::uint16_le;
+         std::vector< std::string > bad;
+         for( const u64 x : { 0xd800ull, 0xdbffull, 0xdc00ull, 0xdfffull } ) bad.push_back( oracle::encode_unit( raw, x ) );
+         bad.push_back( oracle::encode_unit( raw, 0xd800 ) + oracle::encode_unit( raw, 0xd800 ) );
+         bad.push_back( oracle::encode_unit( raw, 0xdbff ) + oracle::encode_unit( raw, 0xdbff ) );
+         bad.push_back( std::string( 1, '\x41' ) );
+         part_scalar_sweep( fam );
+         part_unit_strings( fam, bad );
+         std::vector< std::string > u = boundary_units( e );
+         for( const std::string& b : bad ) u.push_back( b );
+         part_truncations( fam, u );
+      }
+      part_utf32();
+      for( const char* fam : { "utf32_be", "utf32_le" } ) {
+         const enc e = grp( fam ).e;
+         std::vector< std::string > bad;
+         for( const u64 x : { 0xd800ull, 0xdfffull, 0x110000ull, 0xffffffffull, 0x41000000ull, 0xffff0000ull, 0xac200000ull } ) bad.push_back( oracle::encode_unit( e, x ) );
+         bad.push_back( std::string( "\x00\x00\x41", 3 ) );
+         part_scalar_sweep( fam );
+         part_unit_strings( fam, bad );
+         std::vector< std::string > u = boundary_units( e );
+         for( const std::string& b : bad ) u.push_back( b );
+         part_truncations( fam, u );
+      }
+#endif
+#if HAS( 2 ) || HAS( 3 )
+      part_byte_classes( "uint8" );
+      part_byte_strings( "uint8" );
+#endif
+#if HAS( 4 )
+      part_uint16( "uint16_be" );
+      part_uint16( "uint16_le" );
+      {
+         const std::vector< u64 > p16 = structured_values( 2, { 0x1234, 0xfe01, 0x0100, 0x7f02, 0x8000, 0xc0f0 } );
+         for( const char* fam : { "uint16_be", "uint16_le" } ) {
+            part_unit_strings( fam, { std::string( 1, '\x12' ) } );
+            part_truncations( fam, first_units( grp( fam ).e, p16, 24 ) );
+         }
+      }
+#endif
+#if HAS( 5 )
+      {
+         const std::vector< u64 > p32 = uint_pool( "uint32_be", "uint32_le", 4 );
+         for( const char* fam : { "uint32_be", "uint32_le" } ) {
+            part_uint_wide( fam, p32 );
+            part_unit_strings( fam, { std::string( "\x12\x34\x56", 3 ) } );
+            part_truncations( fam, first_units( grp( fam ).e, p32, 24 ) );
+         }
+         const std::vector< u64 > p64 = uint_pool( "uint64_be", "uint64_le", 8 );
+         for( const char* fam : { "uint64_be", "uint64_le" } ) {
+            part_uint_wide( fam, p64 );
+            part_unit_strings( fam, { std::string( "\x01\x23\x45\x67\x89\xab\xcd", 7 ) } );
+            part_truncations( fam, first_units( grp( fam ).e, p64, 24 ) );
+         }
+      }
+#endif
+      V.count( "sweep:truncated-units-rejected-or-reported", g_truncated );
+      V.sample( "{\"part\":\"rule list\",\"instantiations\":" + std::to_string( g_rules.size() ) + ",\"first\":\"" + verif::jesc( g_rules.front().name ) + "\",\"last\":\"" + verif::jesc( g_rules.back().name ) + "\"}" );
+   }
+
 }  // namespace
 
 int main( int argc, char** argv )
